@@ -334,14 +334,15 @@ Qed.
 Lemma exec_head (s : st) m a0 acur acur' aend' dm cc :
   BR (bundlers s) a0 acur acur -> wfa a0 -> wfa acur -> is_head (mcmd m) = true -> astep acur m = Some (acur', dm) ->
   run_rel acur' aend' ->
-  uid_supply s = a_next acur -> deferred s = false -> record_intr s = false -> cache s = Some cc ->
-  exists s' o v,
-    exec_cmd s m = (s', Done (RVal v), o) /\ keeps s s' /\
+  uid_supply s = a_next acur -> record_intr s = false -> cache s = Some cc ->
+  exists s' o cr,
+    exec_cmd s m = (s', cr, o) /\
+    ((exists v, cr = Done (RVal v)) \/ (cr = Susp KCkptSleep /\ mcmd m = CCheckpoint)) /\ keeps s s' /\
     cache s' = match mcmd m with COpenRun => cache s | _ => Some [] end /\ uid_supply s' = a_next acur' /\
     forallb devdoc o = true /\ final_events o = doc_events dm /\ stops o = doc_stops dm /\
     BR (bundlers s') acur' acur' aend'.
 Proof.
-  intros HBR Hw0 Hwc Hh Hst Hrr Hu Hdf Hri Hc.
+  intros HBR Hw0 Hwc Hh Hst Hrr Hu Hri Hc.
   pose proof (astep_mrun _ _ _ _ _ _ Hst) as Hrun.
   unfold PointSpec.astep in Hst. rewrite Hrun, Nat.eqb_refl in Hst. cbn [negb] in Hst.
   unfold RE.exec_cmd. destruct (mcmd m) eqn:Ecmd; cbn in Hh; try discriminate Hh; clear Hh.
@@ -354,27 +355,40 @@ Proof.
       pose proof HR as (R1 & R2 & R3 & R4 & R5). rewrite Eb in R3.
       rewrite R4 in Hp2. apply prefix_app_same in Hp2. subst X. cbn [ones map] in R5. rewrite app_nil_r in R4, R5.
       unfold wfa in Hwc. rewrite Er in Hwc. destruct Hwc as (W1 & W2 & W3 & W4).
-      rewrite Hbs. cbn [existsb snd]. rewrite R3. cbn [orb]. rewrite Hc. simp_st. rewrite Hdf.
-      do 3 eexists. split; [reflexivity|]. split; [keeps_tac|]. split; [reflexivity|]. split; [exact Hu|].
-      split; [reflexivity|]. split; [reflexivity|]. split; [reflexivity|].
-      simp_st. rewrite Hbs. cbn [map fst snd].
-      unfold run_rel in Hrr. cbn [a_run freshen] in Hrr. rewrite Er in Hrr. destruct (a_run aend') as [rend'|] eqn:Ee; [|contradiction].
-      destruct Hrr as [_ Hpe].
-      eapply BR_intro with (X := []) (Y := []); [exact Er | reflexivity | exact Er | exact Ee | exact Eb | | | | ].
-      * unfold Rb. cbn. rewrite Eb, !app_nil_r. repeat split; assumption.
-      * cbn. rewrite app_nil_r. change (fold_set (bseq b) (bseqcopy b) = ab_seq r). rewrite R5. apply fold_set_prefix; [exact W1|].
-        unfold wfa in Hw0. rewrite H0 in Hw0. destruct Hw0 as (V1 & V2 & V3 & V4).
-        rewrite Hsc, keys_app, keys_ones, V2, <- keys_app, W2. rewrite R4 in Hp1. apply prefix_map. exact Hp1.
-      * cbn. rewrite R4, app_nil_r. apply prefix_refl.
-      * cbn. rewrite R4. exact Hpe.
-    + injection Hst as Ha Hd; subst acur' dm. unfold BR in HBR. rewrite Er in HBR. rewrite HBR. cbn [existsb]. rewrite Hc. simp_st. rewrite Hdf.
-      do 3 eexists. split; [reflexivity|]. split; [keeps_tac|]. split; [reflexivity|]. split; [exact Hu|].
-      split; [reflexivity|]. split; [reflexivity|]. split; [reflexivity|].
-      simp_st. rewrite HBR. unfold BR. cbn [a_run freshen]. rewrite Er. reflexivity.
+      rewrite Hbs. cbn [existsb snd]. rewrite R3. cbn [orb]. rewrite Hc. simp_st.
+      assert (HB : BR [(rk, b_snapshot b)] (freshen acur) (freshen acur) aend').
+      { unfold run_rel in Hrr. cbn [a_run freshen] in Hrr. rewrite Er in Hrr. destruct (a_run aend') as [rend'|] eqn:Ee; [|contradiction].
+        destruct Hrr as [_ Hpe].
+        eapply BR_intro with (X := []) (Y := []); [exact Er | reflexivity | exact Er | exact Ee | exact Eb | | | | ].
+        * unfold Rb. cbn. rewrite Eb, !app_nil_r. repeat split; assumption.
+        * cbn. rewrite app_nil_r. change (fold_set (bseq b) (bseqcopy b) = ab_seq r). rewrite R5. apply fold_set_prefix; [exact W1|].
+          unfold wfa in Hw0. rewrite H0 in Hw0. destruct Hw0 as (V1 & V2 & V3 & V4).
+          rewrite Hsc, keys_app, keys_ones, V2, <- keys_app, W2. rewrite R4 in Hp1. apply prefix_map. exact Hp1.
+        * cbn. rewrite R4, app_nil_r. apply prefix_refl.
+        * cbn. rewrite R4. exact Hpe. }
+      destruct (deferred s) eqn:Hdf.
+      * do 3 eexists. split; [reflexivity|]. split; [right; split; reflexivity|].
+        split; [keeps_tac|]. split; [reflexivity|]. split; [exact Hu|].
+        split; [reflexivity|]. split; [reflexivity|]. split; [reflexivity|].
+        simp_st. rewrite Hbs. cbn [map fst snd]. exact HB.
+      * do 3 eexists. split; [reflexivity|]. split; [left; eexists; reflexivity|].
+        split; [keeps_tac|]. split; [reflexivity|]. split; [exact Hu|].
+        split; [reflexivity|]. split; [reflexivity|]. split; [reflexivity|].
+        simp_st. rewrite Hbs. cbn [map fst snd]. exact HB.
+    + injection Hst as Ha Hd; subst acur' dm. unfold BR in HBR. rewrite Er in HBR. rewrite HBR. cbn [existsb]. rewrite Hc. simp_st.
+      destruct (deferred s) eqn:Hdf.
+      * do 3 eexists. split; [reflexivity|]. split; [right; split; reflexivity|].
+        split; [keeps_tac|]. split; [reflexivity|]. split; [exact Hu|].
+        split; [reflexivity|]. split; [reflexivity|]. split; [reflexivity|].
+        simp_st. rewrite HBR. unfold BR. cbn [a_run freshen]. rewrite Er. reflexivity.
+      * do 3 eexists. split; [reflexivity|]. split; [left; eexists; reflexivity|].
+        split; [keeps_tac|]. split; [reflexivity|]. split; [exact Hu|].
+        split; [reflexivity|]. split; [reflexivity|]. split; [reflexivity|].
+        simp_st. rewrite HBR. unfold BR. cbn [a_run freshen]. rewrite Er. reflexivity.
   - (* open_run *)
     destruct (a_run acur) as [r|] eqn:Er; [discriminate|]. destruct (a_fresh acur); [|discriminate]. injection Hst as Ha Hd; subst acur' dm.
     unfold BR in HBR. rewrite Er in HBR. rewrite HBR, Hri. cbn [amem alookup].
-    do 3 eexists. split; [reflexivity|]. split; [keeps_tac|]. split; [reflexivity|]. split; [sb; rewrite Hu; reflexivity|].
+    do 3 eexists. split; [reflexivity|]. split; [left; eexists; reflexivity|]. split; [keeps_tac|]. split; [reflexivity|]. split; [sb; rewrite Hu; reflexivity|].
     split; [reflexivity|]. split; [cbn; reflexivity|]. split; [reflexivity|].
     sb. rewrite HBR, Hrun, Hu. cbn [aset].
     unfold run_rel in Hrr. cbn [a_run] in Hrr. destruct (a_run aend') as [rend'|] eqn:Ee; [|contradiction].
@@ -390,7 +404,7 @@ Proof.
     rewrite R4 in Hp2. apply prefix_app_same in Hp2. subst X. cbn [ones map] in R5. rewrite app_nil_r in R4, R5.
     sb. rewrite Hbs, Hrun. cbn [alookup aremove]. rewrite Nat.eqb_refl.
     unfold RE.reset_checkpoint. simp_st. rewrite Hc. simp_st.
-    do 3 eexists. split; [reflexivity|]. split; [keeps_tac|]. split; [reflexivity|]. split; [exact Hu|].
+    do 3 eexists. split; [reflexivity|]. split; [left; eexists; reflexivity|]. split; [keeps_tac|]. split; [reflexivity|]. split; [exact Hu|].
     split; [reflexivity|]. split; [reflexivity|].
     split; [cbn; unfold num_events, ab_num_events; rewrite R1, R5; reflexivity|].
     simp_st. unfold BR. cbn [a_run map]. reflexivity.
